@@ -925,6 +925,8 @@ class Machine:
             if mm:
                 argty = mm.group(1).split('::')[-1]
             b = self.find_impl(ty, m.group(3), tr, argty)
+            if b is None and re.fullmatch(r'[A-Z][A-Z0-9]{0,2}', ty) and ty not in STRUCTS and ty not in ENUMS:
+                return None      # a type parameter: dispatched on the runtime value (never the trait's default method)
             if b is None:
                 # a provided (default) method of a trait declared in the crate: its body is named <path>::Trait::method
                 cands = [bb for n, bb in self.b.items() if bb.kind == 'fn' and (n == '%s::%s' % (tr, m.group(3)) or n.endswith('::%s::%s' % (tr, m.group(3))))]
@@ -992,10 +994,16 @@ class Machine:
 
     def dispatch_generic(self, trait, meth, args):
         v = deref(args[0])
-        if isinstance(v, Adt):
-            b = self.find_impl(v.name, meth, trait)
+        tyname = v.name if isinstance(v, Adt) else 'String' if isinstance(v, RString) else 'Vec' if isinstance(v, list) else 'bool' if isinstance(v, bool) else None
+        if tyname is not None:
+            b = self.find_impl(tyname, meth, trait)
             if b is not None:
                 return self.run(b, args)
+            if any(k[0] == tyname and k[2] == trait for k, _ in self.impl_list):
+                # the impl exists but does not override the method: the trait's provided method
+                cands = [bb for n, bb in self.b.items() if bb.kind == 'fn' and (n == '%s::%s' % (trait, meth) or n.endswith('::%s::%s' % (trait, meth)))]
+                if len(cands) == 1:
+                    return self.run(cands[0], args)
         return NotImplemented
 
     def call_closure(self, f, args):
